@@ -48,23 +48,40 @@ theorem rdInt_lt (b : Blob) (be : Bool) (w : Win) (off k v : Nat) (h : rdInt b b
       simpa using this
   · simp at h
 
-theorem memRead_ok (b : Blob) (off len : Nat) (w : Win) (h : memRead b off len = .ok w) :
+/-- reading a file / byte slice: exactly the requested range, inside the image -/
+theorem memRead_ok (b : Blob) (hb : b.process = false) (off len : Nat) (w : Win) (h : memRead b off len = .ok w) :
     w.base = off ∧ w.len = len ∧ off + len ≤ b.size ∧ off + len < 2 ^ 64 := by
   unfold memRead at h
+  simp only [hb, Bool.false_eq_true, ↓reduceIte] at h
   split at h
   · simp at h
   · split at h
     · cases h; refine ⟨rfl, rfl, by assumption, by omega⟩
     · simp at h
 
+/-- reading target memory: a non-empty prefix of the requested range, inside the readable image,
+    and the absolute address does not overflow -/
+theorem memRead_ok_process (b : Blob) (hb : b.process = true) (off len : Nat) (w : Win)
+    (h : memRead b off len = .ok w) :
+    w.base = off ∧ 0 < w.len ∧ w.len ≤ len ∧ off + w.len ≤ b.size ∧ b.start + off < 2 ^ 64 := by
+  unfold memRead at h
+  simp only [hb, ↓reduceIte] at h
+  split at h
+  · simp at h
+  · rename_i hl
+    split at h
+    · simp at h
+    · split at h
+      · cases h
+        have : len ≠ 0 := by simpa using hl
+        refine ⟨rfl, ?_, ?_, ?_, by omega⟩ <;> simp only <;> omega
+      · simp at h
+
 theorem memRead_err (b : Blob) (off len : Nat) (e : String) (h : memRead b off len = .error e) :
     e = "ReadModuleMemory" := by
   unfold memRead at h
-  split at h
-  · cases h; rfl
-  · split at h
-    · simp at h
-    · cases h; rfl
+  repeat' split at h
+  all_goals first | (cases h; rfl) | (simp at h)
 
 /-! ### the error variants each function can produce -/
 
@@ -391,20 +408,21 @@ theorem foldl_dynUpd (es : List (Nat × Nat)) (st : DynInfo) :
     offset lies inside the string table, the answer is the NUL-terminated string at that offset of the
     string table, the table's address being translated to a file offset through the PT_LOAD segments. -/
 theorem C14_soname_is_dt_soname (b : Blob) (h : Hdr) (phs : Array Phdr) (dynh : Phdr) (w : Win)
-    (es : List (Nat × Nat)) (addr size offset : Nat)
+    (es : List (Nat × Nat)) (addr size offset : Nat) (hb : b.process = false)
     (hh : parseHeader b = .ok h) (hp : readProgramHeaders b h = .ok phs)
     (hd : phs.toList.find? (fun p => p.ptype == 2) = some dynh)
     (hw : memRead b dynh.offset dynh.filesz = .ok w)
     (he : dynEntries b h.ctx w (w.len / dynSize h.ctx + 2) 0 = .ok es)
     (h1 : lastTag 5 es = some addr) (h2 : lastTag 10 es = some size) (h3 : lastTag 14 es = some offset)
     (hlt : offset < size) (v : Bytes)
-    (hv : readNameFromStrtab b (locateAddress phs.toList addr) size offset = .ok v) :
+    (hv : readNameFromStrtab b (locateAddressSlice phs.toList addr) size offset = .ok v) :
     readSoName b = .ok v := by
   unfold readSoName readSoNameFull
   simp only [hh]
   have : sonameFromProgramHeaders b h = .ok v := by
     unfold sonameFromProgramHeaders
-    simp only [hp, bind, Except.bind, hd, hw, dynCollect_eq, he, Except.map]
+    simp only [hp, bind, Except.bind, hd, segmentRange, locateAddress, hb, Bool.false_eq_true, ↓reduceIte, hw,
+      dynCollect_eq, he, Except.map]
     obtain ⟨f1, f2, f3⟩ := foldl_dynUpd es {}
     simp only [f1, f2, f3, h1, h2, h3, Option.some_or, hlt, ↓reduceIte, hv]
   simp [this]
